@@ -73,7 +73,7 @@ Pop == SubSeq(k, 1, Len(k) - 1)
 
 Bump(c, name) == [c EXCEPT ![name] = @ + 1]
 CntNames == {"runs", "events", "skipped_runs", "rejected", "faultcmps", "kind_checks", "const_checks", "err_exits",
-             "C01", "C02", "C06", "C07", "C08", "C09", "C12", "C13", "C15", "C16", "C17"}
+             "C01", "C02", "C14", "C06", "C07", "C08", "C09", "C12", "C13", "C15", "C16", "C17"}
 
 (* ---------- outcome comparison ---------- *)
 \* expected outcome x (from Expect) vs recorded outcome y
@@ -192,6 +192,12 @@ StaticFindings(f, out) ==
    (IF out.o = "err" /\ ~ChildErr(f) /\ ~n.st.fal /\ ~(n.k = "call" /\ n.bang)
       THEN << [prop |-> "C02", rule |-> "InfallibleNodeErrs", at |-> DescSt(n)] >>
       ELSE <<>>)
+
+RECURSIVE AddAllAt(_, _, _, _)
+AddAllAt(vs, fs, what, id) ==
+  IF fs = <<>> THEN vs
+  ELSE AddAllAt(Append(vs, [prop |-> Head(fs).prop, rule |-> Head(fs).rule, at |-> Head(fs).at, what |-> what,
+                            prog |-> id, line |-> l]), Tail(fs), what, id)
 
 RECURSIVE AddAll(_, _, _)
 AddAll(vs, fs, what) == IF fs = <<>> THEN vs
@@ -465,12 +471,36 @@ T_FaultCmp ==
   /\ cnt' = Bump(Bump(cnt, "events"), "faultcmps")
   /\ UNCHANGED <<k, vars, prog, run, mode, divs, flags, vtag>>
 
+\* C14: one compiled program, equal events => equal outcome (result, final event, metadata,
+\* variables), whether the runtime is fresh, was cleared after other events (two orders), or runs
+\* concurrently with other threads sharing the program; and compiling twice reports the same.
+\* The harness supplies, per event, the baseline end record and the DISTINCT end records observed
+\* in the history runs and in all concurrent runs.
+DetFindings ==
+  LET pe == Ev.per_event
+      bad(kind) == \E j \in 1..Len(pe) :
+                     LET xs == IF kind = "hist" THEN pe[j].hist ELSE pe[j].conc
+                     IN \E i \in 1..Len(xs) : xs[i] # pe[j].base
+  IN (IF ~Ev.compile_same THEN << [prop |-> "C14", rule |-> "CompileDeterministic", at |-> "compiler"] >> ELSE <<>>)
+     \o (IF bad("hist") THEN << [prop |-> "C14", rule |-> "ClearedRuntimeEqualsFresh", at |-> "runtime"] >> ELSE <<>>)
+     \o (IF bad("conc") THEN << [prop |-> "C14", rule |-> "ConcurrentEqualsSequential", at |-> "runtime"] >> ELSE <<>>)
+     \o (IF \E j \in 1..Len(pe) : pe[j].base.e = "panic"
+         THEN << [prop |-> "C04", rule |-> "NoPanic", at |-> "run"] >> ELSE <<>>)
+
+T_DetCmp ==
+  /\ l <= Len(Rec) /\ Ev.e = "detcmp"
+  /\ l' = l + 1
+  /\ viols' = AddAllAt(viols, DetFindings, [got |-> Ev.src, expected |-> "equal outcomes"], Ev.id)
+  /\ cnt' = Bump(Bump(cnt, "events"), "C14")
+  /\ mode' = "idle" /\ k' = <<>>
+  /\ UNCHANGED <<vars, prog, run, divs, flags, vtag>>
+
 TraceInit ==
   /\ l = 1 /\ k = <<>> /\ vars = <<>> /\ prog = [id |-> 0] /\ run = [probe |-> FALSE]
   /\ mode = "idle" /\ viols = <<>> /\ divs = <<>>
   /\ cnt = [c \in CntNames |-> 0] /\ flags = {} /\ vtag = <<>>
 
-TraceNext == T_Prog \/ T_Start \/ T_Skip \/ T_Enter \/ T_Exit \/ T_Target \/ T_End \/ T_Reject \/ T_Panic \/ T_FaultCmp
+TraceNext == T_Prog \/ T_Start \/ T_Skip \/ T_Enter \/ T_Exit \/ T_Target \/ T_End \/ T_Reject \/ T_Panic \/ T_FaultCmp \/ T_DetCmp
 
 TraceSpec == TraceInit /\ [][TraceNext]_tvars
 
